@@ -110,9 +110,12 @@ pub trait Deserialize: DeserializeInner {
         unsafe {
             addr_of_mut!((*ptr).1).write(backend);
         }
+        // if deserialization fails (or panics) the backend must be released
+        let guard = BackendGuard(unsafe { addr_of_mut!((*ptr).1) });
         // deserialize the data structure
         let mem = unsafe { (*ptr).1.as_ref().unwrap() };
         let s = Self::deserialize_eps(mem)?;
+        core::mem::forget(guard);
         // write the deserialized struct in the memcase
         unsafe {
             addr_of_mut!((*ptr).0).write(s);
@@ -157,9 +160,12 @@ pub trait Deserialize: DeserializeInner {
         unsafe {
             addr_of_mut!((*ptr).1).write(backend);
         }
+        // if deserialization fails (or panics) the backend must be released
+        let guard = BackendGuard(unsafe { addr_of_mut!((*ptr).1) });
         // deserialize the data structure
         let mem = unsafe { (*ptr).1.as_ref().unwrap() };
         let s = Self::deserialize_eps(mem)?;
+        core::mem::forget(guard);
         // write the deserialized struct in the MemCase
         unsafe {
             addr_of_mut!((*ptr).0).write(s);
@@ -200,16 +206,32 @@ pub trait Deserialize: DeserializeInner {
         unsafe {
             addr_of_mut!((*ptr).1).write(MemBackend::Mmap(mmap));
         }
+        // if deserialization fails (or panics) the backend must be released
+        let guard = BackendGuard(unsafe { addr_of_mut!((*ptr).1) });
 
         let mmap = unsafe { (*ptr).1.as_ref().unwrap() };
         // deserialize the data structure
         let s = Self::deserialize_eps(mmap)?;
+        core::mem::forget(guard);
         // write the deserialized struct in the MemCase
         unsafe {
             addr_of_mut!((*ptr).0).write(s);
         }
         // finish init
         Ok(unsafe { uninit.assume_init() })
+    }
+}
+
+/// Drops the [`MemBackend`] already written into a partially initialized
+/// [`MemCase`] when the loading method returns early (error or panic) before
+/// the case is complete; it is [forgotten](core::mem::forget) on success.
+struct BackendGuard(*mut MemBackend);
+
+impl Drop for BackendGuard {
+    fn drop(&mut self) {
+        // SAFETY: the pointer refers to an initialized backend that nobody
+        // else will drop, as the enclosing MaybeUninit is never assumed init.
+        unsafe { core::ptr::drop_in_place(self.0) }
     }
 }
 
